@@ -664,6 +664,6 @@ def run_c19(ctx):
                               % (n_exec, len(records)))
     # extra module: what a PythonTask may do to shared state (PyTask.tla, observations only, see conf_pytask.py)
     import conf_pytask
-    conf_pytask.run(ctx, tlc.workdir('c19pytask'))
+    ctx.extra('PyTask', conf_pytask.run, tlc.workdir('c19pytask'))
 
 
